@@ -136,7 +136,7 @@ Theorem C06_filter_headers : forall hl remove k v,
 Proof. exact filter_headers_spec. Qed.
 Print Assumptions C06_filter_headers.
 
-Theorem C06_206_exact : forall i s e L, decide i = D206 s e L -> app_ok (r_app i) ->
+Theorem C06_206_exact : forall i s e L, decide i = D206 s e L -> app_ok (r_app i) -> serves_ranges (r_app i) ->
   exists chunks,
     cond_resp_app i =
       Some (S_206,
@@ -147,6 +147,11 @@ Theorem C06_206_exact : forall i s e L, decide i = D206 s e L -> app_ok (r_app i
     /\ concat chunks = sent_body i (slice (body_of (r_app i)) (Z.to_nat s) (Z.to_nat e)).
 Proof. exact resp_206. Qed.
 Print Assumptions C06_206_exact.
+
+Theorem C06_206_declined : forall i s e L cs, decide i = D206 s e L -> r_app i = ANoRange cs ->
+  cond_resp_app i = Some (r_status i, r_headers i, if is_head (q_method i) then [] else cs).
+Proof. exact resp_206_declined. Qed.
+Print Assumptions C06_206_declined.
 
 Theorem C06_206_bounds : forall i s e L,
   decide i = D206 s e L -> r_clen i = Some L /\ 0 <= s /\ s < e /\ e <= L.
@@ -159,7 +164,7 @@ Theorem C06_206_length : forall i s e L, decide i = D206 s e L ->
 Proof. exact resp_206_length. Qed.
 Print Assumptions C06_206_length.
 
-Theorem C06_416_headers : forall i rg L, decide i = D416 rg L ->
+Theorem C06_416_headers : forall i rg L, decide i = D416 rg L -> 0 <= L ->
   exists cl body,
     cond_resp_app i =
       Some (S_416,
